@@ -93,6 +93,23 @@ func (w *World) value(r *Rng, b int) uint32 {
 func (w *World) rangeArgs(r *Rng) (uint64, uint64) {
 	k := uint64(w.key(r))
 	start := k<<16 | uint64(low(r))
+	if r.Chance(1, 400) {
+		// universe scale: thousands of chunks, up to the whole 32-bit range
+		switch r.Intn(4) {
+		case 0:
+			return 0, 1 << 32
+		case 1:
+			return start, 1 << 32
+		case 2:
+			return 0, start + 1
+		default:
+			e := start + uint64(1000+r.Intn(30000))<<16
+			if e > 1<<32 {
+				e = 1 << 32
+			}
+			return start, e
+		}
+	}
 	if r.Chance(1, 5) {
 		// both ends on boundary values (the end is exclusive: 65535 leaves the last value out)
 		if r.Bool() {
